@@ -226,3 +226,38 @@ func C04ReplyHeader() {
 	sym.Assert(zzErrorText(out[1]) == ErrActionNotFound.Error(), "error-text")
 	sym.Reach("reply-header-done")
 }
+
+// C04LargeArgs: two concurrent callers with large (5000-byte) argument payloads: each call frame on
+// the wire is intact, so each method would see exactly its caller's arguments.
+func C04LargeArgs() {
+	sym.SetMaxMaterialise(1 << 16)
+	s := newZZStream()
+	e := net.NewEndPoint(s)
+	c := NewClient(NewChannel(e, DefaultCap()))
+	args := make([][]byte, 2)
+	for i := range args {
+		args[i] = make([]byte, 5000)
+		args[i][0], args[i][4999] = sym.U8("first"), sym.U8("last")
+		args[i][1] = byte(0xA0 + i)
+		go func(i int) { c.Call(nil, 1, 1, uint32(10+i), args[i]) }(i)
+	}
+	sym.Quiesce()
+	frames := s.sentMessages()
+	sym.Assert(len(frames) == 2, "call-frames-intact")
+	for _, f := range frames {
+		if len(f.Payload) != 5000 {
+			sym.Fail("call-frame-corrupted")
+			continue
+		}
+		i := int(f.Payload[1]) - 0xA0
+		if i < 0 || i > 1 {
+			sym.Fail("call-frame-corrupted")
+			continue
+		}
+		sym.Assert(f.Header.Action == uint32(10+i), "arguments-reached-another-method")
+		sym.Assert(sym.And(f.Payload[0] == args[i][0], f.Payload[4999] == args[i][4999]), "arguments-altered")
+	}
+	s.peerClose()
+	sym.Quiesce()
+	sym.Reach("large-args-done")
+}
